@@ -784,6 +784,14 @@ func (vfs *MemFS) Remove(name string) error {
 	}
 
 	parent.mu.Lock()
+
+	if parent.children[pi.Part()] != child {
+		// the entry was removed or replaced since it was looked up : start again.
+		parent.mu.Unlock()
+
+		return vfs.Remove(name)
+	}
+
 	defer parent.mu.Unlock()
 
 	if !parent.checkPermission(avfs.OpenWrite, vfs.User()) {
@@ -851,6 +859,14 @@ func (vfs *MemFS) RemoveAll(path string) error {
 	}
 
 	parent.mu.Lock()
+
+	if parent.children[pi.Part()] != child {
+		// the entry was removed or replaced since it was looked up : start again.
+		parent.mu.Unlock()
+
+		return vfs.RemoveAll(path)
+	}
+
 	defer parent.mu.Unlock()
 
 	if c, ok := child.(*dirNode); ok && c.hasChildren() {
